@@ -444,7 +444,8 @@ Proof.
   destruct ((arch =? 0) || (arch =? 10)); [vm_compute; reflexivity|].
   destruct (arch =? 9); [vm_compute; reflexivity|]. destruct (arch =? 5); [vm_compute; reflexivity|].
   destruct (arch =? 12); [vm_compute; reflexivity|]. destruct (arch =? 32771); [vm_compute; reflexivity|].
-  destruct (arch =? 1); [vm_compute; reflexivity|reflexivity].
+  destruct (arch =? 1); [vm_compute; reflexivity|]. destruct (arch =? 3); [vm_compute; reflexivity|].
+  destruct (arch =? 32770); [vm_compute; reflexivity|]. destruct (arch =? 32769); [vm_compute; reflexivity|reflexivity].
 Qed.
 
 (* ---------------------------------------------------------------- any accepted file: the index in terms of the served streams *)
@@ -530,4 +531,12 @@ Proof.
   destruct (forget_walk d (d_threads d) 0%nat None) as (H1 & H2 & H3).
   split; [exact H1|]. split; [exact H2|]. split; [exact H3|]. split; [reflexivity|]. split; [reflexivity|].
   intros lk o c x. destruct x. split; reflexivity.
+Qed.
+
+(* the byte-level context reader covers exactly the architectures MinidumpContext::read has an arm for *)
+Lemma ctx_regs_covers arch : (ctx_regs arch <> None) <-> arch_has_context arch = true.
+Proof.
+  unfold ctx_regs, arch_has_context.
+  destruct (arch =? 0), (arch =? 10), (arch =? 9), (arch =? 5), (arch =? 12), (arch =? 32771), (arch =? 1), (arch =? 3),
+    (arch =? 32770), (arch =? 32769); cbn; split; intro H; try reflexivity; try discriminate; try (exfalso; apply H; reflexivity).
 Qed.
